@@ -13,6 +13,8 @@ pub fn format_expr(expr: &SpannedExpr, max_columns: Option<usize>) -> String {
 
 /// Internal formatting implementation with indentation tracking
 fn format_expr_impl(expr: &SpannedExpr, max_cols: usize, indent: usize) -> String {
+    #[cfg(feature = "verif-hooks")]
+    crate::verif_hooks::enter_format();
     // Special handling for lambdas to ensure correct argument formatting
     if let Expr::Lambda { args, body } = &expr.node {
         return format_lambda(args, body, max_cols, indent);
